@@ -63,6 +63,9 @@ type c15Case struct {
 	// Chunks: the first 4 KiB of the stream reach the server in pieces of these sizes (cyclically), as TCP segments
 	// may; empty = one write
 	Chunks []int `json:"chunks,omitempty"`
+	// ConnBurst > 0: rate limiting is on and a connection may issue this many calls at once (1 per second afterwards); the calls
+	// beyond it are refused. A refusal is the one answer its call gets.
+	ConnBurst int `json:"conn_burst,omitempty"`
 }
 
 const c15SentinelXid = 5999
@@ -119,6 +122,9 @@ func genC15(t *rapid.T) c15Case {
 	}
 	if rapid.IntRange(0, 2).Draw(t, "chunked") == 0 {
 		c.Chunks = rapid.SliceOfN(rapid.IntRange(1, 9), 1, 6).Draw(t, "chunks")
+	}
+	if rapid.IntRange(0, 3).Draw(t, "limited") == 0 {
+		c.ConnBurst = rapid.IntRange(1, 4).Draw(t, "connburst")
 	}
 	return c
 }
@@ -270,6 +276,12 @@ func runC15(tb stat.TB, c c15Case) {
 	v.SeedFile("/d/child", 0644, 0, 0, []byte("c"))
 	v.SeedSymlink("/l", "f", 0, 0)
 	opts := absnfs.ExportOptions{AttrCacheTimeout: 1, AttrCacheSize: 4, Timeouts: drv.FastTimeouts(5 * time.Second)}
+	if c.ConnBurst > 0 {
+		opts.EnableRateLimiting = true
+		rc := absnfs.DefaultRateLimiterConfig()
+		rc.PerConnectionRequestsPerSecond, rc.PerConnectionBurstSize = 1, c.ConnBurst // rate 0 would switch the per-connection limit off
+		opts.RateLimitConfig = &rc
+	}
 	s := newSession(tb, v, opts)
 	defer s.close()
 	var h c14H
@@ -424,6 +436,9 @@ func runC15(tb stat.TB, c c15Case) {
 	}
 	if ref.limitAt > 0 {
 		ls = append(ls, "record_over_limit_by_fragments")
+	}
+	if c.ConnBurst > 0 && len(ref.xids) > c.ConnBurst {
+		ls = append(ls, "calls_beyond_connection_burst")
 	}
 	stat.Case(c, (len(ref.xids) > 0 && mutated) || c.Raw != nil, ls...)
 }
